@@ -25,7 +25,9 @@ MANIFEST = {
             'preceding one (routine defined before a units switch, units '
             'switched inside a routine or an if arm), one in ten a loop whose '
             'bounds mention its own loop variable. Loop variables are printed and compared with an '
-            'independent interpreter (relative tolerance 1e-9). Sampled.',
+            'independent interpreter (relative tolerance 1e-9). Sampled.'
+            ' A fifth of the populations have group and location names th'
+            'at differ only by a blank at either end.',
     'note': 'Trusted: reference interpreter; iteration order = sorted names '
             'within each listed source, sources in the order written; a light '
             'mentioned by two sources is visited once per mention.',
